@@ -1,6 +1,7 @@
 import I2N.Lemmas.PolicyFrame
 import I2N.Lemmas.PolicyGenChain
 import I2N.Lemmas.PolicyGenIter
+import I2N.Lemmas.PolicyIterStable
 /-!
 # C12 — State operations follow the documented policy table and a store model
 
@@ -582,6 +583,22 @@ example : ((genIterLevel (iterFuel 2) (p0 "ra") true ⟨[], []⟩).2.out.map (fu
     (genIterLevel (iterFuel 2) (p0 "ra") true ⟨[], []⟩).2.comps = [] := by decide +kernel
 /-- NV of `iterLevel_matches_source`: `iterFuel n` is a `self` that satisfies its hypothesis -/
 example : Spec (iterFuel 2) ["nets", "vms", "images"] "images" 1 := iterFuel_spec _ _ rfl 2 1 (by decide)
+
+/-- **… and the hypothesis is what the callers provide**: `Params.object_params(name)` can overwrite `states_chain` only
+from a key `states_chain_<name>…`; a dictionary NONE of whose keys begins with `states_chain_` (`NoSuffix`; the shipped
+configuration defines the plain key only, and `_state_check_chain` / `push_states` / `pop_states` write the plain key only)
+and whose chain names no type `states_chain` / `states_chain_…` (`okType`) has a stable chain at every depth
+(`topStable_of_noSuffix`, by induction over the chain with the fold of `object_params` as invariant).  So for every such
+dictionary, of any size, the generator regenerated from the source yields exactly `iterObjects p`. -/
+theorem iterObjects_matches_source_noSuffix (n : Nat) (p : Params)
+    (hn : (p.objects "states_chain").length ≤ n + 1) (h : NoSuffix p)
+    (ht : ∀ t ∈ p.objects "states_chain", okType t = true) (s : GS) :
+    genIterLevel (iterFuel n) p true s = iterObjectsG p s :=
+  iterObjects_matches_source n p hn (topStable_of_noSuffix p h ht) s
+
+/-- NV: the standard dictionary has no `states_chain_…` key and ordinary type names -/
+example : NoSuffix (p0 "ra") ∧ ∀ t ∈ (p0 "ra").objects "states_chain", okType t = true := by
+  unfold NoSuffix; decide +kernel
 
 def iterErrOf (r : Except IterErr Unit × GS) : Option IterErr :=
   match r.1 with
